@@ -810,6 +810,7 @@ func (obj *SparseReal64VectorJointIterator) Ok() bool {
          !(obj.s2 == nil || obj.s2.GetFloat64() == float64(0))
 }
 func (obj *SparseReal64VectorJointIterator) Next() {
+next:
   ok1 := obj.it1.Ok()
   ok2 := obj.it2.Ok()
   obj.s1 = nil
@@ -828,6 +829,8 @@ func (obj *SparseReal64VectorJointIterator) Next() {
       obj.s2 = obj.it2.GetConst()
     }
   }
+  // true if at least one iterator is advanced below
+  advanced := obj.s1 != nil || obj.s2 != nil
   if obj.s1 != nil {
     obj.it1.Next()
   }
@@ -835,6 +838,11 @@ func (obj *SparseReal64VectorJointIterator) Next() {
     obj.it2.Next()
   } else {
     obj.s2 = ConstFloat64(0.0)
+  }
+  // skip positions where all elements are zero, stop only when
+  // all iterators are exhausted
+  if !obj.Ok() && advanced {
+    goto next
   }
 }
 func (obj *SparseReal64VectorJointIterator) Get() (Scalar, ConstScalar) {
@@ -889,6 +897,7 @@ func (obj *SparseReal64VectorJoint3Iterator) Ok() bool {
          !(obj.s3 == nil || obj.s3.GetFloat64() == float64(0))
 }
 func (obj *SparseReal64VectorJoint3Iterator) Next() {
+next:
   ok1 := obj.it1.Ok()
   ok2 := obj.it2.Ok()
   ok3 := obj.it3.Ok()
@@ -922,6 +931,8 @@ func (obj *SparseReal64VectorJoint3Iterator) Next() {
       obj.s3 = obj.it3.GetConst()
     }
   }
+  // true if at least one iterator is advanced below
+  advanced := obj.s1 != nil || obj.s2 != nil || obj.s3 != nil
   if obj.s1 != nil {
     obj.it1.Next()
   }
@@ -934,6 +945,11 @@ func (obj *SparseReal64VectorJoint3Iterator) Next() {
     obj.it3.Next()
   } else {
     obj.s3 = ConstFloat64(0.0)
+  }
+  // skip positions where all elements are zero, stop only when
+  // all iterators are exhausted
+  if !obj.Ok() && advanced {
+    goto next
   }
 }
 func (obj *SparseReal64VectorJoint3Iterator) Get() (Scalar, ConstScalar, ConstScalar) {
